@@ -196,14 +196,27 @@ pub fn c07(ctx: &Ctx, begin: &mut dyn FnMut(J)) -> Outcome {
     );
     // manual resolutions more often than not, so levels are always present
     if r.chance(2, 3) {
-        case.opts.zoom = Zoom::Manual(match r.below(6) {
+        case.opts.zoom = Zoom::Manual(match r.below(10) {
             0 => vec![1],
             1 => vec![4],
             2 => vec![7, 13],
             3 => vec![10, 100],
             4 => vec![100, 1000],
+            // a list need not be given in ascending order (the levels are still *listed* ascending in the file)
+            5 => vec![400, 10, 40],
+            6 => vec![100, 7],
+            7 => vec![10, 10, 40],
+            8 => vec![40, 0, 10],
             _ => vec![*r.pick(&[2, 3, 5, 10, 25]), 400],
         });
+        if let Zoom::Manual(v) = &case.opts.zoom {
+            if v.windows(2).any(|w| w[0] > w[1]) {
+                case.tags.push("manual_zoom_list_not_ascending".into());
+            }
+            if v.windows(2).any(|w| w[0] == w[1]) {
+                case.tags.push("manual_zoom_list_with_repeated_size".into());
+            }
+        }
     }
     begin(J::obj().set("opts", case.opts.to_json()).set("input", bw_input_json(&case.input)));
     let mut out = Outcome::new();
@@ -325,14 +338,27 @@ pub fn c08(ctx: &Ctx, begin: &mut dyn FnMut(J)) -> Outcome {
     let mut r = Rng::derive(ctx.seed, 0xC08, ctx.case);
     let mut case = gen_bb_case(&mut r, &BbGenCfg { allow_zero_len: true, no_zero_zero: true, small_slots: true, max_chroms: 5, ncols: Some(0) });
     if r.chance(2, 3) {
-        case.opts.zoom = Zoom::Manual(match r.below(6) {
+        case.opts.zoom = Zoom::Manual(match r.below(10) {
             0 => vec![1],
             1 => vec![4],
             2 => vec![7, 13],
             3 => vec![10, 100],
             4 => vec![100, 1000],
+            // a list need not be given in ascending order (the levels are still *listed* ascending in the file)
+            5 => vec![400, 10, 40],
+            6 => vec![100, 7],
+            7 => vec![10, 10, 40],
+            8 => vec![40, 0, 10],
             _ => vec![*r.pick(&[2, 3, 5, 10, 25]), 400],
         });
+        if let Zoom::Manual(v) = &case.opts.zoom {
+            if v.windows(2).any(|w| w[0] > w[1]) {
+                case.tags.push("manual_zoom_list_not_ascending".into());
+            }
+            if v.windows(2).any(|w| w[0] == w[1]) {
+                case.tags.push("manual_zoom_list_with_repeated_size".into());
+            }
+        }
     }
     begin(J::obj().set("opts", case.opts.to_json()).set("input", bb_input_json(&case.input)));
     let mut out = Outcome::new();
